@@ -27,7 +27,7 @@ FLOORS = {"quick": {"py.direct": 300000, "rs.direct": 300000, "backend_eq": 3000
                        "reject": 50000, "roundtrip": 200000, "hook.parse_iso8601": 2 * 10**6}}
 REQUIRED_HOOKS = ["pendulum.parse"]
 EXHAUSTIVE = {"quick": False, "thorough": True}
-TECHNIQUE = "constructive render->parse->compare oracle at three hooks (both parse_iso8601 implementations and pendulum.parse), rejection oracle from the calendar, backend-agreement join"
+TECHNIQUE = "constructive render->parse->compare oracle at three hooks (both parse_iso8601 implementations and pendulum.parse), rejection oracle from the calendar, backend-agreement join; range-edge workloads (first/last representable day x offsets)"
 LEVEL_TEXT = ("every generated well-formed string is parsed by the compiled parser, the pure-Python parser and pendulum.parse (default and "
               "exact) and each result is compared with the value the string was rendered from; the thorough tier renders every date "
               "1583-01-01..9999-12-31 in 8 date forms (exhaustive for that sub-domain); impossible dates/weeks/ordinals must be rejected")
